@@ -336,6 +336,13 @@ EndPhaseNow(int tid, int ph)
     auto &tm = GH->tm[tid];
     GH->ghost_ver[p.lock] = tm.pend_newver;
     ++GH->commits[p.lock];
+    // C09: nobody else can hold anything while X is held, so the step that ends the exclusive grant
+    // must leave the version alone in the word (documented layout: bits 32-63 are lock-mode state)
+    const uint64_t w = Word(p.lock);
+    if ((w >> 32U) != 0) {
+      vs::Violate("C09", "MODE-BITS-DISTURBED",
+                  Fmt("T%d ended an exclusive grant on lock %d and left the word 0x%" PRIx64 ": the published version disturbed the lock-mode bits", tid, p.lock, w));
+    }
   }
 #else
   (void)tid;
@@ -379,6 +386,13 @@ OnPost(int tid, const vs::Op &op, uint64_t observed, uint64_t written, bool wrot
 #if LK == 1
       GH->ghost_ver[p.lock] = tm.pend_newver;
       ++GH->commits[p.lock];
+      {
+        const uint64_t w = Word(p.lock);
+        if ((w >> 32U) != (1ULL << 30U)) {  // only the SIX flag (bit 62) may be set after a downgrade
+          vs::Violate("C09", "MODE-BITS-DISTURBED",
+                      Fmt("T%d downgraded an exclusive grant on lock %d and left the word 0x%" PRIx64 ": the published version disturbed the lock-mode bits", tid, p.lock, w));
+        }
+      }
 #endif
       Phase six{p.lock, p.thread, M_SIX, static_cast<int8_t>(tid * 16 + tm.phases), true, true, 0};
       ++tm.phases;
